@@ -16,6 +16,11 @@
    TLS client through mosn's TLS server side, letting the deadline of the waiting Read expire on demand (no sleeping);
    e2e: listener with inspector + tls_context, plain-text and TLS clients, and a phase with a 150 ms read deadline in
    which the client continues only after the net.read hook showed a read that returned without data in flight.
+   Buffer-capacity history (Framing.tla `prior`/`cap`): a read that times out may give a GROWN read buffer back only if
+   it is empty (defect ShrinkDropsBufferedBytes rejected); the timeout schedules are also played behind a first message
+   of 150+ bytes / 20 KB that was delivered whole and consumed, and natively a cut followed by an expiring deadline at
+   every third offset of a stream whose earlier messages made the buffer grow - all under the real startReadLoop
+   (the chunk-exact conn is the rawConnection: its deadline error takes the read loop's timeout branch), 3 transports.
    Protocol LIST dimension (Detect.tla `scope`): the selection loop over an ordered list is model-checked against the
    order-free rule (first ok wins; AGAIN while any listed matcher needs bytes; FAILED only if all failed) incl. defect
    LastVerdictWins; TLC emits the list shapes (length <= 3 x position of the connection's own protocol); the driver
@@ -93,7 +98,8 @@ def run(ctx):
     ctx.add_tlc(vlib.run_tlc(ctx, "wire", "Framing", "Framing_timeout_peek.cfg" if q else "Framing_timeout_peek_thorough.cfg", timeout=900))
     # every named defect must be rejected (non-vacuity); these runs are independent of everything else
     defect_cfgs = [("Framing", "Framing_defect_%s.cfg" % d) for d in
-                   ("OffByOne", "DrainHeader", "ConsumePartial", "PrefaceFlagEarly", "ShortCountAfterTimeout")] + \
+                   ("OffByOne", "DrainHeader", "ConsumePartial", "PrefaceFlagEarly", "ShortCountAfterTimeout",
+                    "ShrinkDropsBufferedBytes")] + \
                   [("Detect", "Detect_defect.cfg"), ("Detect", "Detect_defect_LastVerdictWins.cfg")]
     dpool = cf.ThreadPoolExecutor(max_workers=4)
     djobs = [(c, dpool.submit(vlib.run_tlc, ctx, "wire", m, c, 2, 600, None, None, False, None, None, None, False, False))
@@ -123,6 +129,8 @@ def run(ctx):
         plines = keep + rng.sample(rest, min(pcap, len(rest)))
         sampled = True
     tlines = sorted(set(open(traw).read().splitlines()))
+    # buffer-capacity history: schedules behind a large, fully consumed first message are kept only if a deadline expires
+    tlines = [ln for ln in tlines if json.loads(ln)["prior"] == 0 or json.loads(ln)["pauses"]]
     tcap = 1000
     if len(tlines) > tcap:
         tlines = rng.sample(tlines, tcap)
@@ -222,4 +230,6 @@ def run(ctx):
                         "segmentation is imposed below pkg/network (net.Conn.Read returns exactly the chunks); the kernel/TLS layers are out of scope",
                         "layer 1 builds the inspector/TLS server side as serverContextManager.Conn does (that function only wraps *net.TCPConn); "
                         "the real function is exercised in the e2e part; TLS clients are not paused in e2e (a handshake slower than the deadline fails by design)",
+                        "HTTP/1 hands every buffered byte to its own bufio reader, so the connection read buffer is empty between reads: "
+                        "buffer-capacity defects are decidable on the xprotocols and HTTP/2 only (layer 1), not in the HTTP/1 e2e part",
                         "a Dispatch that has not returned after 25 s (or allocated > 250 MB) on < 1 KB of input counts as a hang"]
